@@ -61,6 +61,12 @@ CHECKS = {
              'plus seeded random perturbations around each boundary. The evidence contains the observed matrix cell => outcome.',
         note='trusted: ref/script.py encodes the limits as the BIPs state them; lock-time success paths need a transaction and are covered by C02/C03',
         ref='5 C10'),
+    'C13': dict(
+        technique='runtime monitoring: independent-codec monitor over parse_tx / parse_transaction in the harness and btcdeb -v --tx (ASan+UBSan build)',
+        text='Exploration: generated transactions (0..6 inputs/outputs, compact-size boundaries 252/253/65535/65536, witness present/absent/mixed, extreme versions and values) are parsed by the real code; all fields, txid, wtxid and both re-encodings must equal the '
+             'independent codec; every truncation, trailing byte, flag-byte corruption, non-canonical or oversized compact size must be rejected with a diagnostic; amount prefixes must convert to satoshis exactly.',
+        note='trusted: ref/tx.py (anchored byte-exactly on doc/txs); amounts judged for |x| < 10^18 satoshi with up to 8 fractional digits',
+        ref='5 C13'),
     'C16': dict(
         technique='runtime monitoring: reference-model monitor over Instance::eval() at random session prefixes (ASan+UBSan build)',
         text='Exploration: exec token lists (opcode names, decimals, hex pushes, invalid tokens) are issued at the start, middle, last operation and end of model-steered sessions; the state after exec is compared with the reference '
